@@ -160,6 +160,10 @@ package wire
 //@   assert at call (*internal/wire.packState).packInto#1: old(msg.Rcode) >= 0 && old(msg.Rcode) <= 4095
 //@   assert at call (*internal/wire.packState).packInto#1: lastret("internal/wire.selectOPT", 1) && arg2 == lastret("internal/wire.selectOPT") && arg1 == msg
 //@   assert at call (*internal/wire.packState).packInto#1: arg2 == nil ==> old(msg.Rcode) <= 15
+//@   # "exposes nothing of previously packed messages": the pooled buffer is zeroed over the library's own bound of the
+//@   # packed length (the uncompressed size) before anything is packed into it, so octets a library routine skips
+//@   # without writing are zeros - as in the library's fresh buffer - never the previous message's bytes
+//@   assert at call (*internal/wire.packState).packInto#1: arg5 == lastret("(*github.com/miekg/dns.Msg).Len") && arg5 <= packBufferSize
 //@   assert at call param internal/wire.TryPack.consume#1: lastret("(*internal/wire.packState).packInto", 1) && len(arg0) == lastret("(*internal/wire.packState).packInto") && cap(arg0) == len(arg0) && calls("param internal/wire.TryPack.consume") == 0
 //@   assert at return: !result0 ==> calls("param internal/wire.TryPack.consume") == 0
 //@   assert at return: calls("(*sync.Pool).Get") == calls("(*internal/wire.packState).release") && calls("(*sync.Pool).Get") <= 1 && calls("(*sync.Pool).Put") == 0
@@ -213,3 +217,13 @@ package wire
 //@   abstract
 //@   nosafety all pre
 //@   assert at copy#1: len(dst) == len(body) && src == body
+//@
+//@ func scrub
+//@   modifies elems(b)
+//@   ensures forall i int :: {b[i]} 0 <= i && i < len(b) ==> b[i] == 0
+//@
+//@ func (*packState).packInto
+//@   abstract
+//@   nosafety all pre
+//@   assert at call internal/wire.scrub#1: len(arg0) == need && calls("(encoding/binary.bigEndian).PutUint16") == 0 && calls("github.com/miekg/dns.PackRR") == 0 && calls("internal/wire.packQuestion") == 0
+//@   assert at call (encoding/binary.bigEndian).PutUint16#1: calls("internal/wire.scrub") == 1
